@@ -451,6 +451,12 @@ impl World {
     }
 
     fn honest_uncached(&self, qname: &Name, qtype: u16, dnssec: bool) -> Resp {
+        if !self.truth.under_anchor(qname) {
+            // anchored-island worlds only (the top zone of every other world is the root): the upstream
+            // serves the anchored zone and what hangs below it, nothing else; like an authoritative-only
+            // server (and a forwarder in front of one) it answers REFUSED for names outside
+            return Resp { rcode: 5, aa: false, recs: Vec::new(), kind: "refused".into() };
+        }
         let mut recs: Vec<Rec> = Vec::new();
         let mut cur = qname.clone();
         let mut rcode = 0u8;
